@@ -131,35 +131,48 @@ def gen_long_case(rng):
 
 def gen_derive_case(rng):
     """lookup / derive / lookup chains: name lookups on the current table (they
-    build its row-name cache), a derivation of the Table API that makes a new
-    table object the current one (t + t, t + t.rows[..], t * k, _copy, rows[..],
-    cols[..], Table.concatenate, _t), then lookups on the RESULT over the whole
-    range of occurrence numbers of its own index column (names only in the
-    appended part, negative counts, counts beyond the source's occurrences,
-    writes by name::-1, get_index_unique), repeated 1-3 times"""
+    build its row-name cache), then either a derivation of the Table API that
+    makes a new table object the current one (t + t, t + t.rows[..], t * k,
+    _copy, rows[..], cols[..], Table.concatenate, _t) or an in-place change of
+    WHICH column is the index (t._index = another string column, back and
+    forth; the index column deleted by del / pop and assigned again), then
+    lookups on the result over the whole range of occurrence numbers of its own
+    index column (names only in the appended part, negative counts, counts
+    beyond the source's occurrences, writes by name::-1, get_index_unique),
+    repeated 1-3 times.  In the operations "name" stands for the current index column."""
     alpha = NAMES[:rng.choice([2, 3, 3])]
     n = rng.randint(1, 8)
     idx = [rng.choice(alpha) for _ in range(n)]
     cols = [[COLS[i], [rng.randint(-50, 50) for _ in range(n)]] for i in range(rng.choice([0, 1, 2]))]
-    case = {"idx": idx, "cols": cols, "ops": [], "derive": True}
-    cur, present, transposed, concatenated = list(idx), [c for c, _ in cols], False, False
-    order = ["name"] + present          # _col_names of the current table
+    scols = [[c, [rng.choice(alpha) for _ in range(n)]] for c in ["alt", "alt2"][:rng.choice([0, 1, 1, 2])]]
+    case = {"idx": idx, "cols": cols, "scols": scols, "ops": [], "derive": True}
+    S = {"name": list(idx)}                 # the string columns (best effort picture; verdicts never use it)
+    S.update({c: list(v) for c, v in scols})
+    st = {"idx": "name", "present": [c for c, _ in cols], "transposed": False, "concatenated": False}
+    st["order"] = ["name"] + st["present"] + [c for c, _ in scols]          # _col_names of the current table
+
+    def cur():
+        return S[st["idx"]]
+
+    def remap(f):
+        for k in list(S):
+            S[k] = f(S[k])
 
     def sel():
-        m = len(cur)
+        m = len(cur())
         if rng.random() < 0.6:
             l = [rng.randint(-m, m - 1) if rng.random() < 0.97 else m for _ in range(rng.randint(0, min(m + 1, 5)))]
-            ok = all(-m <= i < m for i in l)
-            return ["poslist", l], ([cur[i] for i in l] if ok else None)
+            return ["poslist", l], (l if all(-m <= i < m for i in l) else None)
         lo, hi = rng.choice([None, rng.randint(-m - 1, m + 1)]), rng.choice([None, rng.randint(-m - 1, m + 1)])
-        return ["slice", lo, hi], cur[slice(lo, hi)]
+        return ["slice", lo, hi], list(range(m))[slice(lo, hi)]
 
     def lookups(k, writes=True):
         out = []
-        names = sorted(set(cur)) + (["zz"] if rng.random() < 0.2 else [])
+        c0 = cur()
+        names = sorted(set(c0)) + (["zz"] if rng.random() < 0.2 else [])
         for _ in range(k):
             name = rng.choice(names)
-            m = cur.count(name)
+            m = c0.count(name)
             cnt = rng.choice([rng.randint(-m - 1, m), m - 1, -m, -1, 0, rng.randint(0, max(m - 1, 0)), None])
             off = rng.choice([0, 0, 0, 1, -1])
             z = rng.random()
@@ -173,73 +186,91 @@ def gen_derive_case(rng):
             if y < 0.5:
                 out.append([rng.choice(["getindex", "floordiv"]), r])
             elif y < 0.8 or not writes:
-                out.append(["getcell", rng.choice(["name"] + ([] if transposed else present)), r])
+                out.append(["getcell", rng.choice(["name"] + ([] if st["transposed"] else st["present"])), r])
             else:
-                v = rng.choice(sorted(set(cur)))
+                v = rng.choice(sorted(set(c0)))
                 out.append(["setcell", "name", r, v])
-                # keep the generator's picture of the column in step (best effort; verdicts never use it)
-                ps = [i for i, x in enumerate(cur) if x == name]
+                ps = [i for i, x in enumerate(c0) if x == name]
                 c = 0 if cnt is None else cnt
                 if c < 0:
                     c += len(ps)
-                if 0 <= c < len(ps) and -len(cur) <= ps[c] + off < len(cur):
-                    cur[ps[c] + off] = v
+                if 0 <= c < len(ps) and -len(c0) <= ps[c] + off < len(c0):
+                    c0[ps[c] + off] = v
         if rng.random() < 0.4:
             out.append(["unique"])
         return out
 
     for _ in range(rng.randint(1, 3)):
         case["ops"] += lookups(rng.randint(1, 4), writes=rng.random() < 0.3)      # on the source: builds its cache
+        alts = [c for c in S if c != st["idx"]]
         kinds = ["d_addself", "d_addself", "d_addrows", "d_addrows", "d_mul", "d_mul", "d_copy", "d_rows"]
-        if not transposed and present and cur:
+        if not st["transposed"] and len(st["order"]) >= 2 and cur():
             kinds += ["d_reindex", "d_reindex", "d_reindex"]
-        if not transposed:
-            # Table.concatenate orders the columns by iterating a set: no _t (whose index column
-            # is the column list) after it
-            kinds += ["d_cols", "d_concat", "d_concat"] + ([] if concatenated else ["d_t"])
+        if not st["transposed"] and alts:
+            kinds += ["d_repoint"] * 5
+        if not st["transposed"]:
+            # Table.concatenate orders the columns by iterating a set (no _t, whose index column is the
+            # column list, after it) and makes "name" the index again (not while another column is the index)
+            kinds += ["d_cols"] + (["d_concat", "d_concat"] if st["idx"] == "name" else []) + ([] if st["concatenated"] else ["d_t"])
         kd = rng.choice(kinds)
-        if len(cur) > 40 and kd in ("d_addself", "d_addrows", "d_mul", "d_concat"):
+        if len(cur()) > 40 and kd in ("d_addself", "d_addrows", "d_mul", "d_concat"):
             kd = "d_rows"
         if kd == "d_addself":
-            case["ops"].append([kd]); cur = cur + cur
+            case["ops"].append([kd]); remap(lambda l: l + l)
         elif kd == "d_addrows":
-            s, r = sel()
-            case["ops"].append([kd, s]); cur = cur + r if r is not None else cur
+            sj, ps = sel()
+            case["ops"].append([kd, sj])
+            if ps is not None:
+                remap(lambda l: l + [l[i] for i in ps])
         elif kd == "d_mul":
             k = rng.choice([0, 1, 2, 2, 3])
-            case["ops"].append([kd, k]); cur = cur * k if k > 0 else cur
+            case["ops"].append([kd, k])
+            if k > 0:
+                remap(lambda l: l * k)
         elif kd == "d_copy":
             case["ops"].append([kd])
         elif kd == "d_rows":
-            s, r = sel()
-            case["ops"].append([kd, s]); cur = list(r) if r is not None else cur
+            sj, ps = sel()
+            case["ops"].append([kd, sj])
+            if ps is not None:
+                remap(lambda l: [l[i] for i in ps])
         elif kd == "d_cols":
-            keep = [c for c in present if rng.random() < 0.6]
+            keep = [c for c in st["present"] if rng.random() < 0.6]
             rng.shuffle(keep)
-            case["ops"].append([kd, keep]); present = keep; order = ["name"] + keep
+            case["ops"].append([kd, keep]); st["present"] = keep; st["order"] = [st["idx"]] + keep
+            for c in alts:                      # the other string columns are not selected
+                del S[c]
         elif kd == "d_concat":
             ss, ok, add = [], True, []
             for _ in range(rng.randint(0, 2)):
-                s, r = sel()
-                ss.append(s); ok = ok and r is not None; add += r or []
-            case["ops"].append([kd, ss]); cur = cur + add if ok else cur
-            concatenated = True
+                sj, ps = sel()
+                ss.append(sj); ok = ok and ps is not None; add += ps or []
+            case["ops"].append([kd, ss])
+            if ok:
+                remap(lambda l: l + [l[i] for i in add])
+            st["concatenated"] = True
+        elif kd == "d_repoint":
+            # t._index = '<another string column>': that column is the index now, the former one an ordinary column
+            c = rng.choice(alts)
+            case["ops"].append([kd, c, st["idx"]])
+            st["idx"] = c
         elif kd == "d_reindex":
             # delete / pop the index column, assign a column with the index name again (other content)
-            cur = [rng.choice(alpha) for _ in range(len(cur))]
-            case["ops"].append([kd, list(cur), rng.choice(["del", "pop"]), rng.choice(["item", "attr"])])
-            order = [x for x in order if x != "name"] + ["name"]
-            if rng.random() < 0.5 and present:          # an ordinary column removed and created again as well
-                c = rng.choice(present)
+            S[st["idx"]] = [rng.choice(alpha) for _ in range(len(cur()))]
+            case["ops"].append([kd, list(cur()), rng.choice(["del", "pop"]), rng.choice(["item", "attr"])])
+            st["order"] = [x for x in st["order"] if x != st["idx"]] + [st["idx"]]
+            if rng.random() < 0.5 and st["present"]:          # an ordinary column removed and created again as well
+                c = rng.choice(st["present"])
                 case["ops"].append(["delcol", c, rng.choice(["del", "pop"])])
-                case["ops"].append(["setcol", c, [rng.randint(-50, 50) for _ in range(len(cur))], rng.choice(["item", "attr"])])
-                order = [x for x in order if x != c] + [c]
-                present = [x for x in order if x != "name"]
+                case["ops"].append(["setcol", c, [rng.randint(-50, 50) for _ in range(len(cur()))], rng.choice(["item", "attr"])])
+                st["order"] = [x for x in st["order"] if x != c] + [c]
+                st["present"] = [x for x in st["order"] if x in st["present"]]
         else:
-            labels = list(order)
+            labels = list(st["order"])
             case["ops"].append([kd, list(labels)])      # the labels: column names of the source, in its order
-            cur, transposed = labels, True
-        if not cur:
+            S.clear(); S["columns"] = labels
+            st["idx"], st["transposed"], st["present"], st["order"] = "columns", True, [], ["columns"]
+        if not cur():
             break
         case["ops"] += lookups(rng.randint(3, 8))                                    # on the derived table
     return case
@@ -355,6 +386,8 @@ def emit_dop(op, N):
         return f"DT {clist([cn(N(c)) for c in op[1]])}"
     if k == "d_reindex":
         return f"DReindex {clist([cn(N(x)) for x in op[1]])}"
+    if k == "d_repoint":
+        return f"DRepoint {cn(N('col:' + op[1]))} {cn(N('col:' + op[2]))}"
     return f"DOp ({emit_op(op, N)})"
 
 
@@ -363,7 +396,9 @@ def emit_dcase(case, results, N):
     if any(r is None for r in rs):
         return None
     t = f"(mkTable {clist([cn(N(x)) for x in case['idx']])} " + \
-        clist([f"({cn(N('col:' + c))}, {clist([cz(v) for v in vals])})" for c, vals in case["cols"]]) + " None)"
+        clist([f"({cn(N('col:' + c))}, {clist([cz(v) for v in vals])})" for c, vals in case["cols"]] +
+              # the other string columns: names as integers (model/TableDerive.v)
+              [f"({cn(N('col:' + c))}, {clist([cz(N(v)) for v in vals])})" for c, vals in case.get("scols", [])]) + " None)"
     return f"({t}, {clist([emit_dop(o, N) for o in case['ops']])}, {clist(rs)})"
 
 
@@ -472,7 +507,7 @@ def run(ctx):
                 "non-ASCII and case-variant names): 30+ lookups name::k / (name,k) / (name,k,off) over the whole range of k incl. negative "
                 "and out of range, get_index_unique, then the same after renaming a row / replacing the column; plus 500 (quick) / 8000 (thorough) "
                 "lookup / derive / lookup chains: name lookups on the current table, then t+t, t+t.rows[..], t*k, _copy, rows[..], cols[..], "
-                "Table.concatenate or _t makes a new table object current, or the index column is deleted (del / pop) and assigned again under its name (item / attribute style; ordinary columns too), then lookups, writes by name::count and get_index_unique on the result "
+                "Table.concatenate or _t makes a new table object current, or the index is re-pointed to another string column (t._index = ..., back and forth), or the index column is deleted (del / pop) and assigned again under its name (item / attribute style; ordinary columns too), then lookups, writes by name::count and get_index_unique on the result "
                 "over the whole range of occurrence numbers of ITS index column, 1-3 times; non-trivial = an index-column "
                 "mutation followed by a name-based lookup; distinct by (table, ops)")
     proof_ok = vlib.standard_proof_part(ctx, "props/C07.v", allowed_axioms=(), extra_targets=["run/RunTable.vo", "run/RunTableDerive.vo"])
